@@ -18,7 +18,7 @@ from harness.common import REPO, main, pool_map
 from harness import tlc
 
 Q = 3072             # = 12 * 256 length units per unit of real length (mc traces)
-TOL = 8              # comparison slack in 1/Q units (2.6e-3): rounding <= 0.5, float32 noise measured <= 0.05
+TOL = 8              # comparison slack in 1/Q units (2.6e-3): rounding <= 0.5 unit, float32 noise measured 6.4e-7 = 0.002 unit
 LIM = 2 ** 31 - 1
 
 MC_CFG = """SPECIFICATION Spec
@@ -577,7 +577,7 @@ def run(ctx, explain=False):
     ctx.assumptions = [
         "the compiled Lewiner kernel (_mc_lewiner*.so) is used as found; it cannot be rebuilt here",
         "vertices are shipped as round(x*%d) and compared with slack %d units (%.1e): rounding <= 0.5 unit, "
-        "float32 noise measured <= 0.05 unit" % (Q, TOL, TOL / Q),
+        "float32 noise measured on the tree 6.4e-7 = 0.002 unit" % (Q, TOL, TOL / Q),
         "surface meshes are quantised to 0.02 A (vertices) and atoms to the nearest odd 0.01 A for the exact ray "
         "casting; atoms of the probed systems are >= 0.5 A from the surfaces",
         "level-residual clause: the wrappers smooth the mesh, so only a trend is demanded (no step grows by more "
